@@ -108,3 +108,9 @@ def conf(lt: int, delim: bool, fs: int, ns: bool) -> bool:
     except Exception:  # noqa: BLE001
         ok = False
     return fin(M, ok, lt=lt, delim=delim, fs=fs, ns=ns)
+
+
+def probe():
+    st = pj.gen_stream(1, pj.make_options(1))
+    st.flow, st.enroll, st.flow.to_stream_frame  # noqa: B018
+    len(st.flow)
